@@ -244,20 +244,30 @@ func C18(e *core.Env) {
 	}
 
 	// an output path on which every write fails (/dev/full: no space left on device): a failure, not a silent success
-	if _, err := os.Stat("/dev/full"); err == nil {
+	// (reached through a symbolic link in the scratch directory: a command that REPLACES its output path - rename over it -
+	// must not be able to replace the device node of a sandbox that runs as root; that happened once under a seeded change)
+	fullLink := filepath.Join(work, "full-device")
+	os.Remove(fullLink)
+	if st, err := os.Stat("/dev/full"); err == nil && st.Mode()&os.ModeCharDevice != 0 && os.Symlink("/dev/full", fullLink) == nil && os.WriteFile(fullLink, []byte("x"), 0o644) != nil {
 		for _, pd := range [][2]int{{0, 0}, {0, 1}, {1, 1}} {
 			p, d := profiles[pd[0]], datas[pd[1]]
 			pp := filepath.Join(work, "p_"+p.name+".yaml")
 			dp := filepath.Join(work, "d_"+d.name+".jsonld")
-			r := runCli(acv, "validate", pp, dp, "/dev/full")
+			os.Remove(fullLink)
+			os.Symlink("/dev/full", fullLink)
+			r := runCli(acv, "validate", pp, dp, fullLink)
 			res.Case("validate-file/"+p.name+"/"+d.name+"/dev-full", true)
 			res.Count("prior=dev-full")
 			if r.exit == 0 || r.stdout != "" {
 				res.Violate("impl-violates-property", fmt.Sprintf("acv validate into an output path whose writes fail (/dev/full) ends with exit status %d: the report was not written and nothing says so", r.exit),
-					map[string]any{"argv": []string{"validate", pp, dp, "/dev/full"}, "profile": p.text, "data": d.text, "exit": r.exit, "stdout": core.Trunc(r.stdout, 400)})
+					map[string]any{"argv": []string{"validate", pp, dp, fullLink}, "output_path": "a symbolic link to /dev/full", "profile": p.text, "data": d.text, "exit": r.exit, "stdout": core.Trunc(r.stdout, 400)})
 			}
 		}
+	} else {
+		res.Note("/dev/full is not a character device whose writes fail here: the failing-output stream is skipped")
 	}
+	os.Remove(fullLink)
+	os.Remove(fullLink + ".tmp")
 
 	// PROFILE / DATA that are not regular files: a named pipe (what the shell's <(...) gives) and /dev/stdin behind a pipe
 	for _, pd := range [][2]int{{0, 1}, {1, 0}, {2, 2}} {
